@@ -324,6 +324,26 @@ def mk_case(kind, rng, **kw):
     return dict(kind=kind, d=d, opmap=oglib.rand_opmap(rng, sorted(set(range(0, 8)) | {oid}), d, oid_identity=oid), **kw)
 
 
+def known_findings_present(k):
+    """F14 (C17 part): constructions whose denoted operator is the empty sum, replayed on every run"""
+    if k.get('key') != 'zero-operator-raises':
+        return False
+    import pytenet as ptn
+    from pytenet.autop import AutOp, AutOpNode, AutOpEdge
+    try:
+        a = AutOp([AutOpNode(0, [], [0], 0), AutOpNode(1, [0], [], 0)], [AutOpEdge(0, [0, 1], [(1, 1.0)], active=lambda i: i == 0)], [0, 1])
+        ok1 = ptn.OpGraph.from_automaton(a, 1).length == 1
+        try:
+            ptn.OpGraph.from_automaton(a, 2)
+            raised = False
+        except AssertionError:
+            raised = True
+        g = ptn.OpGraph.from_optrees([], 3, 0)
+        return bool(ok1 and raised and g.length == 0)
+    except Exception:
+        return False
+
+
 def search(tier, seed, hints, budget_s):
     t0 = time.time()
     rng = np.random.default_rng([seed, 1717])
